@@ -599,5 +599,5 @@ def check(ck):
     # ---- C01.12 the request pool executes every accepted request (shared with C09.2 / C10.7) -----------------------------
     from rules import c09 as _c09p, c10 as _c10p, common as _cmp
     _cmp.import_rules(ck, _c09p, {"C09.2": "C01.12"})
-    _cmp.import_rules(ck, _c10p, {"C10.7": "C01.12"})
+    _cmp.import_rules(ck, _c10p, {"C10.7": "C01.12", "C10.3": "C01.12"})
     ck.floor("C01.12", 6)
